@@ -24,7 +24,8 @@ type CCR struct {
 	AmtRel string `json:"amtRel,omitempty"` // "", bal-1, bal, bal+1: amount relative to the current balance (resolved at run time)
 	Sess   string `json:"sess"`
 	Num    uint32 `json:"num"`
-	Both   bool   `json:"both,omitempty"` // carry requested and used service units both
+	Both   bool   `json:"both,omitempty"`   // carry requested and used service units both
+	IdType int    `json:"idType,omitempty"` // Subscription-Id-Type (0 E164, 1 IMSI, 2 SIP URI, 3 NAI, 4 PRIVATE); only IMSI names an account
 }
 
 type C07Case struct {
@@ -65,6 +66,10 @@ func genC07(t *rapid.T) C07Case {
 		r.Sess = rapid.SampledFrom([]string{"s1", "", "session;with;semicolons", "séssion-ü", "a-very-long-session-identifier-0123456789012345678901234567890123456789012345678901234567890123456789"}).Draw(t, "sess")
 		r.Num = rapid.SampledFrom([]uint32{0, 1, 2, 77, math.MaxUint32}).Draw(t, "num")
 		r.Both = rapid.IntRange(0, 4).Draw(t, "both") == 0
+		r.IdType = 1
+		if rapid.IntRange(0, 7).Draw(t, "otherIdType") == 0 {
+			r.IdType = rapid.SampledFrom([]int{0, 2, 3, 4}).Draw(t, "idType")
+		}
 		c.Reqs = append(c.Reqs, r)
 	}
 	return c
@@ -111,6 +116,10 @@ func judgeC07(c C07Case) *h.Verdict {
 		default:
 			supi, rg = accts[0].supi, 9
 		}
+		if r.IdType != 1 {
+			// the digits of a known subscriber under another identifier type do not name its account
+			idx = -3
+		}
 		amount := r.Amount
 		if idx >= 0 {
 			switch r.AmtRel {
@@ -142,7 +151,7 @@ func judgeC07(c C07Case) *h.Verdict {
 			SessionId: datatype.UTF8String(r.Sess), OriginHost: "verif-client", OriginRealm: "verif", DestinationRealm: "go-diameter", DestinationHost: "server",
 			UserName: datatype.OctetString("CHF"), RequestedAction: cdt.RequestedAction(r.Action), CcRequestType: cdt.CcRequestType(r.Type),
 			CcRequestNumber: datatype.Unsigned32(r.Num), EventTimestamp: datatype.Time(time.Now()),
-			SubscriptionId: &cdt.SubscriptionId{SubscriptionIdType: cdt.END_USER_IMSI, SubscriptionIdData: datatype.UTF8String(supi[5:])},
+			SubscriptionId: &cdt.SubscriptionId{SubscriptionIdType: cdt.SubscriptionIdType(r.IdType), SubscriptionIdData: datatype.UTF8String(supi[5:])},
 			MultipleServicesCreditControl: &cdt.MultipleServicesCreditControl{RatingGroup: datatype.Unsigned32(rg),
 				RequestedServiceUnit: &cdt.RequestedServiceUnit{CCTotalOctets: datatype.Unsigned64(amount)}},
 		}
@@ -159,7 +168,7 @@ func judgeC07(c C07Case) *h.Verdict {
 		}
 		wait := 2 * time.Second
 		if idx < 0 {
-			wait = 150 * time.Millisecond
+			wait = 40 * time.Millisecond
 		}
 		ans, err := abmfPeer.Do(msg, wait)
 		if err != nil {
@@ -167,6 +176,9 @@ func judgeC07(c C07Case) *h.Verdict {
 			return v.Failf("HARNESS-io", "%v", err)
 		}
 		desc := fmt.Sprintf("step %d: CCR action %d type %d amount %d for account %d (model balance %d)", step, r.Action, r.Type, amount, idx, model[idx])
+		if idx == -3 {
+			v.NT("other-subscription-id-type")
+		}
 		if idx < 0 {
 			v.NT("unknown-account")
 			for i, a := range accts {
